@@ -5,6 +5,11 @@ ROOT = os.path.dirname(os.path.dirname(os.path.abspath(__file__)))
 
 CHECKS = {
  # id: (engine, category, technique, level text, level note, design_ref)
+ "C11": ("pure+socket+multireader", "exploration",
+   "property-based testing: encoder/peeler round trip over generated envelopes; stateful generated scenarios over two real RemoteTasks joined by an in-memory websocket with harness agents/downlinks and injected frames; model-based MultiReader check with counting wakers",
+   "1.5e6 generated envelopes (8 kinds + NoSuchAgent forms x adversarial node/lane strings x real printer bodies) must peel to the same kind, node, lane and body; truncated / one-character-mutated envelopes never panic the reader; 1.2e5 socket scenarios run two real RemoteTasks (polled by hand in a paused seeded runtime) with several harness agents, downlinks and one-way clients on confusable (node, lane) pairs attaching, writing and detaching in generated order plus injected valid/alternative-spelling/invalid frames: every message must arrive at exactly its addressee with identical content, once, in source order, and invalid frames reach no one and close the connection; MultiReader with up to 130 scripted streams must yield every item exactly once in per-stream order, end only after all streams ended and never lose a wake-up.",
+   "Trusts: the ratchet websocket layer (NoExt, unfragmented frames); bodies starting with a blank or not UTF-8 are outside the generator domain.",
+   "DESIGN.md §4 C11"),
  "C13": ("store", "exploration",
    "model-based stateful property testing: generated histories of id_for/put/get/delete/update/remove/clear/read_map with reopen points against an in-memory reference map, on RocksDB and on the in-memory store; child-process SIGKILL at generated points",
    "1.2e4 (quick) histories on a real RocksDB directory per case with real close/reopen, 2e5 on the in-memory store, over 1-3 agent uris x 1-4 items with adversarial names and keys (empty, shared prefixes, a/b vs a+b, 0x00/0xFF, lengths around the key prefix size): after every mutating op or reopen every item used so far is read back and compared with the model (the addressed item and all others = isolation), ids must be stable across reopen and injective. 3e3 kill cases re-execute the binary as a child that acknowledges each op on a pipe and is SIGKILLed at generated points: every acknowledged op must be present, the unacknowledged one atomically present or absent.",
@@ -110,6 +115,7 @@ def main():
             {"name": "dlimpl", "path": "/verif/harness/c08", "serves_properties": ["C08"], "kind_free_text": "real client downlink tasks and agent-hosted downlinks fed identical generated notification sequences; reference fold"},
             {"name": "enum", "path": "/verif/harness/c12 c17 c20", "serves_properties": ["C12","C17","C20"], "kind_free_text": "bounded-exhaustive enumeration of op sequences on the real implementation with counting wakers / reference models"},
             {"name": "store", "path": "/verif/harness/c13", "serves_properties": ["C13"], "kind_free_text": "model-based histories on RocksDB (real directories, reopen, child-process SIGKILL) and the in-memory store"},
+            {"name": "socket", "path": "/verif/harness/c11", "serves_properties": ["C11"], "kind_free_text": "two real RemoteTasks over an in-memory websocket, harness relay that records and injects frames; pure ReconEncoder/peeler round trip; MultiReader model check"},
             {"name": "pure", "path": "/verif/harness/c09 c10 c15 c16 c18 c19 (+ vgen, vcommon)", "serves_properties": ["C09","C10","C15","C16","C18","C19"], "kind_free_text": "proptest TestRunner / bounded-exhaustive enumeration over pure functions with explicit oracles"},
         ],
         "checks": checks,
